@@ -36,6 +36,9 @@ inline unsigned char rx_byte(uint64_t i) { return (unsigned char)((i * 89 + (i >
 //   policy threshold consume(0 all,1 k bytes,2 nothing) k shrink_in_cb        pclose      pwrclose n      disconnect     advance ms
 //   chain n k   the next k send-complete notifications each send n more bytes from inside the callback
 //   shrink which(0 receive,1 send,2 both)   BufferedFd::shrinkRecvBuffer()/shrinkSendBuffer() (mode 0)
+//   pause n m    (mode 0) BufferedFd::disable(), then n bytes are sent and the peer writes m bytes while it is paused; the next op enables it again
+//   xdisc n how order   the application disconnects in the very loop pass in which the connection's own descriptor has something pending:
+//                the peer writes n bytes (how 0), writes and closes (1) or just closes (2); order 0 posts the disconnect first, 1 the peer acts first
 void generate(sim::Rng &r, uint64_t seed, const std::string &tier, sim::Plan &p) {
   bool thorough = tier == "thorough";
   long mode = (long)r.below(3);
@@ -77,7 +80,8 @@ void generate(sim::Rng &r, uint64_t seed, const std::string &tier, sim::Plan &p)
     unsigned x = (unsigned)r.below(100);
     if (x < 30) { op.kind = "send"; op.a = {dt, pick_size(), 0}; }
     else if (x < 35) { op.kind = "chain"; op.a = {dt, pick_size(), r.range(1, 4)}; }
-    else if (x < 60) { op.kind = "prd"; op.a = {dt, r.chance(300) ? r.range(1, 100) : pick_size() * 2, 0}; }
+    else if (x < 57 || (x < 60 && mode != 0)) { op.kind = "prd"; op.a = {dt, r.chance(300) ? r.range(1, 100) : pick_size() * 2, 0}; }
+    else if (x < 60) { op.kind = "pause"; op.a = {dt, r.chance(600) ? pick_size() : 0, r.chance(500) ? pick_size() : 0}; enabled = false; }
     else if (x < 80) { op.kind = "pwr"; op.a = {dt, pick_size(), 0}; }
     else if (x < 88) { op.kind = "policy"; op.a = {dt, r.pick((const long[]){0, 0, 1, 1, 2, 10, 2000}), (long)r.below(3), r.range(1, 3000), r.chance(350) ? 1 : 0}; }
     else if (x < 90) { op.kind = "shrink"; op.a = {dt, (long)r.below(3), 0}; }
@@ -85,7 +89,11 @@ void generate(sim::Rng &r, uint64_t seed, const std::string &tier, sim::Plan &p)
     else if (reconn && !reconnected && !closed && x >= 90 && x < 97 && i >= 2) { op.kind = "preconn"; op.a = {dt, pick_size(), 0}; reconnected = true; }
     else if (x < 95 && !closed && i > n / 2) { op.kind = "pclose"; op.a = {dt, 0, 0}; closed = true; }
     else if (x < 97 && !closed && i > n / 2) { op.kind = "pwrclose"; op.a = {dt, pick_size(), 0}; closed = true; }   // last bytes and close pending in the same wake-up
-    else if (x < 99 && !closed && i > n / 2) { op.kind = "disconnect"; op.a = {dt, 0, 0}; closed = true; }
+    else if (x < 99 && !closed && i > n / 2) {
+      if (mode != 0 && r.chance(600)) { op.kind = "xdisc"; op.a = {dt, pick_size(), (long)r.below(3), (long)r.below(2)}; }
+      else { op.kind = "disconnect"; op.a = {dt, 0, 0}; }
+      closed = true;
+    }
     else { op.kind = "prd"; op.a = {dt, 100000, 0}; }
     fset(op);
     p.ops.push_back(op);
@@ -145,7 +153,13 @@ std::function<void(Buffer &)> make_receive_cb() {
   };
 }
 
+void after_disconnect(const char *what) {
+  if (W.local_disconnected && W.mode != 0)
+    sim::violation("C06/callback-after-disconnect", sim::fmt("%s was reported for a connection the application had already disconnected", what));
+}
+
 void on_receive(Buffer &buff) {
+  after_disconnect("received data");
   size_t n = buff.readableSize();
   const uint8_t *p = buff.readableBegin();
   sim::trace("recv cb readable=%zu consumed=%lu", n, (unsigned long)W.rx_consumed);
@@ -171,6 +185,7 @@ void on_receive(Buffer &buff) {
 
 bool tbox_send(long n);
 void on_send_complete() {
+  after_disconnect("send-complete");
   ++W.send_completes;
   uint64_t accepted = W.tx_peer_read + (uint64_t)peer_unread();
   sim::trace("send complete sent=%lu accepted=%lu", (unsigned long)W.tx_sent, (unsigned long)accepted);
@@ -180,6 +195,7 @@ void on_send_complete() {
 }
 
 void on_closed(const char *how) {
+  after_disconnect("a close");
   ++W.closed_reports;
   sim::trace("closed report (%s) #%ld presented=%lu written=%lu", how, W.closed_reports, (unsigned long)W.rx_presented, (unsigned long)W.rx_written);
   if (!W.peer_closed) { sim::violation("C06/close-reported-without-close", "peer close reported although the peer has not closed"); return; }
@@ -266,6 +282,13 @@ void apply(const sim::Op &op) {
   long n = op.arg(1);
   if (k == "presend") { if (W.mode == 0 && !W.bfd_enabled) tbox_send(std::max(1L, std::min(4000000L, n))); }
   else if (k == "enable") { if (W.mode == 0 && W.bfd && !W.bfd_enabled && !W.local_disconnected) { W.bfd->enable(); W.bfd_enabled = true; sim::trace("enable"); } }
+  else if (k == "pause") {
+    if (W.mode == 0 && W.bfd && W.bfd_enabled && !W.local_disconnected && !W.peer_closed) {
+      W.bfd->disable(); W.bfd_enabled = false; sim::probe("pauses"); sim::trace("pause");
+      if (op.arg(1) > 0) tbox_send(std::max(1L, std::min(4000000L, op.arg(1))));
+      if (op.arg(2) > 0) peer_write(std::max(1L, std::min(4000000L, op.arg(2))));
+    }
+  }
   else if (k == "send") { if (!W.local_disconnected && !(W.mode == 0 && !W.bfd)) tbox_send(std::max(1L, std::min(4000000L, n))); }
   else if (k == "policy") {
     W.threshold = std::max(0L, n); W.consume_mode = op.arg(2) % 3; W.consume_k = std::max(1L, op.arg(3)); W.shrink_in_cb = (op.arg(4) & 1) != 0;
@@ -278,7 +301,7 @@ void apply(const sim::Op &op) {
   } else if (k == "chain") { W.chain_n = std::max(1L, std::min(4000000L, n)); W.chain_left = std::max(0L, std::min(8L, op.arg(2))); }
   else if (k == "shrink") {
     if (W.mode == 0 && W.bfd) { long w = ((op.arg(1) % 3) + 3) % 3; if (w != 1) W.bfd->shrinkRecvBuffer(); if (w != 0) W.bfd->shrinkSendBuffer(); sim::probe("shrinks"); }
-  } else if (k == "disconnect") {
+  } else if (k == "disconnect" || k == "xdisc") {
     if (W.local_disconnected) return;
     W.local_disconnected = true;
     if (W.mode == 0) { if (W.bfd) { W.bfd->disable(); BufferedFd *b = W.bfd; W.bfd = nullptr; W.loop->runNext([b] { delete b; }, "c06.del"); } }
@@ -368,6 +391,18 @@ void execute(const sim::Plan &plan) {
       else if (k == "preconn") {
         // last bytes, hang-up; the client connects again at once and the peer accepts that connection a little later
         if (W.mode == 2 && W.pfd >= 0 && !W.peer_closed && !W.awaiting_reconnect) { peer_write(std::max(1L, std::min(4000000L, op->arg(1)))); close(W.pfd); W.peer_closed = true; W.awaiting_reconnect = true; sim::trace("peer write+close, will accept the reconnection"); }
+      }
+      else if (k == "xdisc") {
+        long how = ((op->arg(2) % 3) + 3) % 3; bool peer_first = (op->arg(3) & 1) != 0;
+        auto peer_act = [op, how] {
+          if (W.pfd < 0 || W.peer_closed) return;
+          if (how != 2) peer_write(std::max(1L, std::min(4000000L, op->arg(1))));
+          if (how != 0) { close(W.pfd); W.peer_closed = true; sim::trace("peer close (with a local disconnect in the same pass)"); }
+        };
+        if (peer_first) peer_act();
+        W.loop->runInLoop([op] { apply(*op); }, "c06.xdisc");
+        if (!peer_first) peer_act();
+        sim::probe("disconnects_with_pending_events");
       }
       else if (k == "pwrclose") { if (W.pfd >= 0 && !W.peer_closed) { peer_write(std::max(1L, std::min(4000000L, op->arg(1)))); close(W.pfd); W.peer_closed = true; sim::trace("peer write+close"); } }
       else W.loop->runInLoop([op] { apply(*op); }, "c06.op");
